@@ -31,8 +31,10 @@ def load_contract_modules():
 
 def obligation_belongs(name, prop):
     """Clause names starting with another property id are not counted for `prop`."""
-    if len(name) > 3 and name[0] == 'C' and name[1:3].isdigit() and name[3] in '._':
-        return name[:3] == prop
+    import re
+    m = re.match(r'^(C\d\d(?:\+C\d\d)*)[._]', name)
+    if m:
+        return prop in m.group(1).split('+')      # `C01+C07.clause` is counted for both properties
     return True
 
 
